@@ -109,6 +109,12 @@ pub trait Plain {
 	fn unit(&self, a: i32) -> RpcResult<()>;
 	#[method(name = "note")]
 	fn note(&self, a: u8);
+	#[method(name = "tail3")]
+	fn tail3(&self, a: u32, b: Option<u32>, c: Option<u32>, d: Option<u32>) -> RpcResult<(u32, Option<u32>, Option<u32>, Option<u32>)>;
+	#[method(name = "tail2")]
+	async fn tail2(&self, a: String, b: Option<u64>, c: Option<u64>) -> RpcResult<(String, Option<u64>, Option<u64>)>;
+	#[method(name = "tailonly", blocking)]
+	fn tailonly(&self, a: Option<String>, b: Option<String>, c: Option<String>) -> RpcResult<(Option<String>, Option<String>, Option<String>)>;
 }
 
 #[rpc(client, server, namespace = "ns")]
@@ -127,6 +133,8 @@ pub trait Ns {
 	async fn sub_items(&self, start: u32, tag: Option<String>) -> SubscriptionResult;
 	#[subscription(name = "syncSub", unsubscribe = "syncUnsub", item = u64, param_kind = map)]
 	fn sync_sub(&self, n: u8, k: u64);
+	#[subscription(name = "subscribeTail", item = (u32, Option<u32>, Option<u32>, Option<u32>))]
+	async fn sub_tail(&self, a: u32, b: Option<u32>, c: Option<u32>, d: Option<u32>) -> SubscriptionResult;
 }
 
 #[rpc(client, server, namespace = "svc.v1", namespace_separator = ".")]
@@ -250,6 +258,18 @@ impl PlainServer for Impl {
 	fn note(&self, a: u8) {
 		let _ = self.0.rec("0.m11", &(a,));
 	}
+	fn tail3(&self, a: u32, b: Option<u32>, c: Option<u32>, d: Option<u32>) -> RpcResult<(u32, Option<u32>, Option<u32>, Option<u32>)> {
+		self.0.rec("0.m12", &(a, b, c, d))?;
+		Ok((a, b, c, d))
+	}
+	async fn tail2(&self, a: String, b: Option<u64>, c: Option<u64>) -> RpcResult<(String, Option<u64>, Option<u64>)> {
+		self.0.rec("0.m13", &(&a, b, c))?;
+		Ok((a, b, c))
+	}
+	fn tailonly(&self, a: Option<String>, b: Option<String>, c: Option<String>) -> RpcResult<(Option<String>, Option<String>, Option<String>)> {
+		self.0.rec("0.m14", &(&a, &b, &c))?;
+		Ok((a, b, c))
+	}
 }
 
 /// items a subscription handler sends: computed from the arguments, the same formula is in tools/props/c17.py
@@ -310,6 +330,12 @@ impl NsServer for Impl {
 	async fn sub_items(&self, pending: PendingSubscriptionSink, start: u32, tag: Option<String>) -> SubscriptionResult {
 		let args = serde_json::to_vec(&(start, &tag)).unwrap();
 		serve_sub(self.0.clone(), "1.s0", args, pending, point_items(start, &tag)).await;
+		Ok(())
+	}
+	async fn sub_tail(&self, pending: PendingSubscriptionSink, a: u32, b: Option<u32>, c: Option<u32>, d: Option<u32>) -> SubscriptionResult {
+		let args = serde_json::to_vec(&(a, b, c, d)).unwrap();
+		let items: Vec<(u32, Option<u32>, Option<u32>, Option<u32>)> = (0..(1 + a % 3)).map(|i| (a.wrapping_add(i), b, c, d)).collect();
+		serve_sub(self.0.clone(), "1.s2", args, pending, items).await;
 		Ok(())
 	}
 	fn sync_sub(&self, pending: PendingSubscriptionSink, n: u8, k: u64) {
@@ -594,6 +620,9 @@ async fn run_stub(apis: &[Api], sh: &Arc<Shared>, api: usize, m: &str, args: &[u
 				Err(e) => client_err(e),
 			}
 		}
+		(0, "m12") => stub!(args; c, tail3; a: u32, b: Option<u32>, cc: Option<u32>, d: Option<u32>),
+		(0, "m13") => stub!(args; c, tail2; a: String, b: Option<u64>, cc: Option<u64>),
+		(0, "m14") => stub!(args; c, tailonly; a: Option<String>, b: Option<String>, cc: Option<String>),
 		(1, "m0") => stub!(args; c, map_two; a: u8, b: String),
 		(1, "m1") => stub!(args; c, renamed; a: u16, b: bool),
 		(1, "m2") => stub!(args; c, map_opt; a: u32, b: Option<String>, cc: Option<Vec<u8>>),
@@ -606,6 +635,10 @@ async fn run_stub(apis: &[Api], sh: &Arc<Shared>, api: usize, m: &str, args: &[u
 		(1, "s1") => {
 			let (a, b): (u8, u64) = serde_json::from_slice(args).expect("typed args of the case");
 			drain::<u64>(sh, c.sync_sub(a, b).await).await
+		}
+		(1, "s2") => {
+			let (a, b, cc, d): (u32, Option<u32>, Option<u32>, Option<u32>) = serde_json::from_slice(args).expect("typed args of the case");
+			drain::<(u32, Option<u32>, Option<u32>, Option<u32>)>(sh, c.sub_tail(a, b, cc, d).await).await
 		}
 		(2, "m0") => stub!(args; c, get;),
 		(2, "m1") => stub!(args; c, heck; a: u8, b: u8, cc: u8, d: u8, e: u8),
